@@ -54,13 +54,15 @@ static u8_t *parse(std::vector<std::string> args)
   return get_v_opt((int)keep.size(), argv.data());
 }
 
-static const int NOPS = 28;
+static const int NOPS = 31;
 static const char *opname[NOPS] = {"encA(T1,n20,cbc,sha1)", "encB(T2,n70,ctr,md5)", "encC(T4,n100,ofb,sha256)", "decA(valid)", "decB(wrong key)", "decB(tampered)",
                                    "dec(garbage)", "dec(mode byte 9)", "verB(valid)", "verB(tampered)", "parse(-V)", "parse(-x unknown)", "parse(-dex aborts in cluster)",
                                    "parse(-e -i F -o O -k K --cmode 2)", "decB(valid,T2)", "decB(valid) into an output that cannot be written (/dev/full)",
                                    // the same verdict classes for every hash / cipher configuration: residue of a FAILED check of one kind must not reach a later one of another kind
                                    "decC(valid,T4,ofb,sha256)", "decC(wrong key)", "decC(tampered)", "verC(valid)", "verC(wrong key)", "verC(tampered)",
-                                   "verA(valid,sha1)", "verA(wrong key)", "decA(wrong key)", "decA(tampered)", "verB(wrong key)", "ver(garbage)"};
+                                   "verA(valid,sha1)", "verA(wrong key)", "decA(wrong key)", "decA(tampered)", "verB(wrong key)", "ver(garbage)",
+                                   // a runner built with the DEFAULT arguments (default_settings, THREAD_NUM): what a caller that does not pass its own Settings gets
+                                   "encD(default settings and threads, n70)", "decC(valid) on a default-built runner", "verC(valid) on a default-built runner"};
 static void do_op(int op, bool &ret, std::vector<u8_t> &out)
 {
   OpResult r;
@@ -175,6 +177,29 @@ static void do_op(int op, bool &ret, std::vector<u8_t> &out)
   case 27:
     r = wv_verify(fx.garbage, fx.keyB, 2);
     break;
+  case 28:
+  {
+    MemFile in(fx.PB), out(std::vector<u8_t>(), "wb+");
+    auto sd = fx.seed;
+    sd.push_back(0);
+    {
+      runcrypt rc(in.f, out.f, fx.keyB.data());
+      r.ret = rc.execute_encrypt(fx.PB.size(), sd.data());
+    }
+    r.out = out.bytes();
+    break;
+  }
+  case 29:
+  case 30:
+  {
+    MemFile in(fx.fileC), out(std::vector<u8_t>(), "wb+");
+    {
+      runcrypt rc(in.f, out.f, fx.keyC.data());
+      r.ret = op == 29 ? rc.execute_decrypt(fx.fileC.size()) : rc.execute_verify(fx.fileC.size());
+    }
+    r.out = out.bytes();
+    break;
+  }
   }
   ret = r.ret;
   out = r.out;
